@@ -30,9 +30,10 @@ from ..tlc import MachineryError
 LEVEL = "model_checking"
 AREA = "locals"
 BUGS = ("setattr", "delattr", "release", "push", "pop", "release_stack", "proxy_early", "spawn_fresh",
-        "release_all")
-BUGS_QUICK = ("setattr", "pop", "release", "proxy_early")
-MUTATORS = {"set", "del", "release", "push", "pop", "release_stack", "cleanup", "proxy_mutate"}
+        "release_all", "falsy_unbound")
+BUGS_QUICK = ("setattr", "pop", "release", "proxy_early", "falsy_unbound")
+MUTATORS = {"set", "del", "release", "push", "pop", "release_stack", "cleanup", "proxy_mutate", "proxy_pop",
+            "proxy_clear"}
 
 
 def _job(job):
@@ -132,7 +133,9 @@ def judge_selftest(ctx: Ctx):
                 "sibling-attr": lambda tl: tl[5]["obs"][0]["get"][0].__setitem__("id", 2),   # ctx 1 sees ctx 2's x
                 "sibling-stack": lambda tl: tl[6]["obs"][0].__setitem__("stack", []),       # ctx 2's pop hit ctx 1
                 "proxy-truthy": lambda tl: tl[8]["obs"][1]["prox"][0].__setitem__("truthy", True),
-                "return": lambda tl: tl[6]["r"].__setitem__("id", 1)}
+                "return": lambda tl: tl[6]["r"].__setitem__("id", 1),
+                # ctx 2's x is object 2 (bound, falsy): claiming RuntimeError there must be rejected
+                "falsy-bound": lambda tl: tl[5]["obs"][1]["prox"][0].__setitem__("cur", 0)}
     lines, names = [], []
     for t, (name, f) in enumerate(variants.items()):
         tl = json.loads(json.dumps(good))
@@ -154,7 +157,8 @@ def run(ctx: Ctx):
     q = ctx.quick
     rng = random.Random(ctx.seed)
     ctx.rule = ("case = one operation (set/get/del/iter/release, push/pop/top/release_stack, LocalManager.cleanup, "
-                "create proxy, read / mutate through proxy, spawn child context) executed on the real objects inside a "
+                "create proxy, read / mutate / pop() / clear() through proxy, spawn child context; stored objects: plain, "
+                "__bool__-falsy, 0, '', [], {}, a list emptied through the proxy) executed on the real objects inside a "
                 "behaviour, followed by reading everything every live context can see, judged by TLC; behaviours: tours "
                 "covering every transition of the TLC-exported contract LTS + seeded random schedules, each realised with "
                 "copy_context, lock-stepped threads and hand-stepped asyncio tasks; non-trivial = distinct behaviour with a "
@@ -162,7 +166,10 @@ def run(ctx: Ctx):
     ctx.assumptions += [
         "interleaving granularity = one public operation (each Local/LocalStack operation is one ContextVar get/set pair on a "
         "per-context variable; preemption inside an operation is not explored)",
-        "stored values are mutable objects with one field; a child's snapshot is a snapshot of the bindings (shallow), as with contextvars",
+        "stored values are objects identified by `is` (plain objects with one field, an object with a state-dependent __bool__, "
+        "the int 0, '', lists, a dict); a child's snapshot is a snapshot of the bindings (shallow), as with contextvars",
+        "a proxy bound to a falsy object is bound: bool(proxy) = bool(object), unbound-ness is judged by RuntimeError / "
+        "_get_current_object / repr, never by truthiness; None itself is not stored (LocalStack uses it for 'empty')",
         "iteration order of Local.__iter__ is not specified and not judged (items compared as a set)",
         "bounded models: <= 3 contexts, names {x,y}, 2 objects, stack depth <= 2, <= 5 (quick) / 7 (thorough) operations; "
         "plus all behaviours of any length for 3 contexts, 1 name, depth 1 (thorough)",
@@ -180,7 +187,7 @@ def run(ctx: Ctx):
     ctx.exhaustive = True
     # 2. spec -> code: tours over the exported transition system ----------------------------------
     jobs = []
-    for cfg in (["MCX_q", "MCX_q3"] if q else ["MCX_q", "MCX_q3", "MCX_t", "MCX_t3"]):
+    for cfg in (["MCX_q", "MCX_q3", "MCX_qf"] if q else ["MCX_q", "MCX_q3", "MCX_qf", "MCX_t", "MCX_t3", "MCX_tf"]):
         for p, made in export_tours(ctx, cfg, rng, maxlen=30 if q else 100):
             jobs += _three_ways(p, made)
     ctx.notes["tour_traces"] = len(jobs)
